@@ -46,9 +46,7 @@ class DagSplitter:
     def split_group_into_trees(self, sgraph, function_info, group):
         nodes = sgraph.get_group(group)
         # Get rid of ENTRY and EXIT:
-        nodes = set(
-            filter(lambda x: x.name.op not in ["ENTRY", "EXIT"], nodes)
-        )
+        nodes = [x for x in nodes if x.name.op not in ["ENTRY", "EXIT"]]
 
         tail_node = function_info.block_tails[group]
         return self.make_trees(nodes, tail_node)
@@ -149,13 +147,14 @@ class DagSplitter:
 
 def topological_sort_modified(nodes, start):
     """Modified topological sort, start at the end and work back"""
+    node_set = set(nodes)
     unmarked = set(nodes)
     marked = set()
     temp_marked = set()
     L = []
 
     def visit(n):
-        if n not in nodes:
+        if n not in node_set:
             return
         assert n not in temp_marked, "DAG has cycles"
         if n in unmarked:
@@ -179,8 +178,10 @@ def topological_sort_modified(nodes, start):
 
     # Start to visit with pre-knowledge of the last node!
     visit(start)
-    while unmarked:
-        node = next(iter(unmarked))
+
+    # Visit the remaining nodes in the order in which they were given, such
+    # that the result does not depend on the iteration order of a set:
+    for node in nodes:
         visit(node)
 
     # Hack: move tail again to tail:
